@@ -161,7 +161,12 @@ def history(ctx):
     muts = driver.history_mutations(R)
     ctx.ob("C07.history", "get_regime returns an unsupported regime", R.exc is not None and R.exc.typename == "ValueError" and not muts,
            f"exception {R.exc!r}; history events {[(k, w) for _, k, w, _ in muts]}", mloc)
-    ctx.floor("C07.history", 6)
+    for raw in (8, -1, 21, 3):
+        R = driver.run_update(ctx, N=2, stub_derivatives=False, get_regime=Native("get_regime", lambda I_, t, x, r=raw: r))
+        muts = driver.history_mutations(R)
+        ctx.ob("C07.history", f"get_regime returns the raw ordinal {raw}", R.exc is not None and R.exc.typename == "ValueError" and not muts,
+               f"exception {R.exc!r}; history events {[(k, w) for _, k, w, _ in muts]}" + ("" if R.exc is not None else " (an invalid/unsupported ordinal produced numbers)"), mloc)
+    ctx.floor("C07.history", 10)
 
 
 def rhs_divisions(ctx):
